@@ -1,5 +1,5 @@
 SPECIFICATION Spec
-CONSTANTS MaxIn = 4 MaxL = 2 MaxPend = 2 MaxSent = 1 Ops <- OpsT
+CONSTANTS MaxIn = 3 MaxL = 2 MaxPend = 2 MaxSent = 1 Ops <- OpsT
 VIEW View
 INVARIANTS TypeOK ReleasedOnce OpenWhileLive
 PROPERTIES OwnEventsOnly OnePerConnection ReleaseCause
